@@ -149,6 +149,32 @@ Section Secure.
         end
     end.
 
+  (* the server's half alone, for a request frame with arbitrary metadata and body (a peer that
+     does not go through the plugin's own pre-write hook) *)
+  Record serve_obs := mkServeObs {
+    s_handler_arg : option V; s_rep_secure : marker; s_rep_wire : option bytes; s_status : status }.
+
+  Definition serve_call (ks : key) (xs xa : marker) (w1 : bytes) (h : handler) : serve_obs :=
+    let '(use1, acc, _) := pre_read xs xa in
+    match read_body zarg ks use1 w1 with
+    | RDecode => mkServeObs None None (Some []) SBadMessage
+    | RPlugin => mkServeObs None None (Some []) SServerPlugin
+    | ROk a =>
+        if negb (h_ok h) then mkServeObs (Some a) (h_secure h) (Some []) SHandler
+        else match pre_write ks true (h_secure h) acc (h_fun h a) with
+             | WErr => mkServeObs (Some a) (snd (is_secure (h_secure h))) None SWrite
+             | WOk xs2 ob2 =>
+                 match wire_body ob2 with
+                 | None => mkServeObs (Some a) xs2 None SWrite
+                 | Some w2 => mkServeObs (Some a) xs2 (Some w2) SOk
+                 end
+             end
+    end.
+
+  Definition serve_push (ks : key) (xs xa : marker) (w1 : bytes) : option V :=
+    let '(use1, _, _) := pre_read xs xa in
+    match read_body zarg ks use1 w1 with ROk a => Some a | _ => None end.
+
   (* did the reply travel as an envelope? *)
   Definition reply_enveloped (kc ks : key) (q : request) (h : handler) : bool :=
     match pre_write kc true (q_secure q) false (q_arg q) with
